@@ -166,6 +166,38 @@ func (x *Exec) translateObligation(ob *Obligation) (q *Query) {
 		score float64
 	}
 	var sc []scored
+	// relevance spreads from the goal's symbols through the hypotheses in a few levels (SInE style):
+	// a hypothesis reached at level l contributes its symbols to level l+1
+	level := map[string]int{}
+	for s := range goalSyms {
+		level[s] = 0
+	}
+	hlevel := make([]int, len(hyps))
+	for k := range hlevel {
+		hlevel[k] = -1
+	}
+	for l := 0; l < 4; l++ {
+		var newly []int
+		for k := range hyps {
+			if hlevel[k] >= 0 {
+				continue
+			}
+			for sym := range hsyms[k] {
+				if lv, ok := level[sym]; ok && lv <= l && df[sym] <= 12 {
+					hlevel[k] = l
+					newly = append(newly, k)
+					break
+				}
+			}
+		}
+		for _, k := range newly {
+			for sym := range hsyms[k] {
+				if _, ok := level[sym]; !ok {
+					level[sym] = l + 1
+				}
+			}
+		}
+	}
 	for k := range hyps {
 		v := 0.0
 		shared := 0
@@ -177,6 +209,9 @@ func (x *Exec) translateObligation(ob *Obligation) (q *Query) {
 		}
 		if len(hsyms[k]) > 0 {
 			v *= float64(shared) / float64(len(hsyms[k])) // prefer hypotheses that talk about little else
+		}
+		if hlevel[k] >= 0 {
+			v += 1.0 / float64(2+hlevel[k])
 		}
 		sc = append(sc, scored{k, v})
 	}
@@ -207,7 +242,7 @@ func (x *Exec) translateObligation(ob *Obligation) (q *Query) {
 	return q
 }
 
-var symRe = regexp.MustCompile(`\b(?:H|M|Cell|G|Box)_[A-Za-z0-9_]+|\bu_[A-Za-z0-9_]+|\bsz\b|\bstr_(?:prefix|concat|drop|lt)\b`)
+var symRe = regexp.MustCompile(`\bsl_append_[A-Za-z0-9_()]+|\b(?:H|M|Cell|G|Box)_[A-Za-z0-9_]+|\bu_[A-Za-z0-9_]+|\bsz\b|\bstr_(?:prefix|concat|drop|lt)\b`)
 var nameRe = regexp.MustCompile(`[A-Za-z_][A-Za-z0-9_]*![0-9]+`)
 
 // symbolsOf collects the heap / uninterpreted-function symbols of a term, looking through define-fun
@@ -238,6 +273,9 @@ func (x *Exec) symbolsOf(s string, out map[string]bool, depth int) {
 		}
 		if symRe.MatchString(base) {
 			out[base] = true
+		}
+		if _, isDef := x.b.defs[n]; !isDef && !strings.HasPrefix(n, "reach") && !strings.HasPrefix(n, "edge") {
+			out[n] = true // a declared constant (fresh value): a very specific symbol
 		}
 		if d, ok := x.b.defs[n]; ok && len(d) < 4000 {
 			x.symbolsOf(d, out, depth-1)
@@ -456,7 +494,14 @@ func (x *Exec) instantiate(ob *Obligation, hyps []qhyp, goalConjs []conj, replac
 		rounds = 1
 	}
 	sub := x.b.child()
+	prevSize := -1
 	for round := 0; round < rounds; round++ {
+		// further rounds while instantiation keeps producing new candidate terms (chains such as
+		// appended element -> sorted element -> permutation source)
+		if round == rounds-1 && rounds >= 3 && rounds < 6 && cands.size() > prevSize && prevSize >= 0 {
+			rounds++
+		}
+		prevSize = cands.size()
 		var facts []Term
 		mkEnv := func(base *Env, assume bool, tag string) *Env {
 			inst := 0
